@@ -165,8 +165,9 @@ inductive StepR where
   | done (st : Status) (m : MR)
   | more (m : MR) (size : Nat) (chunk : Bytes)
 
-/-- body of the `while (size != 0)` loop of `sqfs_meta_reader_read` (entered with `size ≠ 0`) -/
-def readStep (fix : Bool) (f : File) (unc : Codec) (m : MR) (size : Nat) : StepR :=
+/-- body of the `while (size != 0)` loop of `sqfs_meta_reader_read` (entered with `size ≠ 0`) below the
+position guard -/
+def readStepBody (fix : Bool) (f : File) (unc : Codec) (m : MR) (size : Nat) : StepR :=
   let r := refill fix f unc m
   if r.1 ≠ 0 then .done r.1 r.2.1                                          -- if (ret) return ret;
   else
@@ -174,6 +175,14 @@ def readStep (fix : Bool) (f : File) (unc : Codec) (m : MR) (size : Nat) : StepR
     let diff := if r.2.2 > size then size else r.2.2                       -- if (diff > size) diff = size
     if m1.offset + diff > m1.data.length then .done crashSt m1            -- memcpy source leaves m->data
     else .more { m1 with offset := m1.offset + diff } (size - diff) ((m1.data.drop m1.offset).take diff)
+
+/-- one iteration of the `while (size != 0)` loop of `sqfs_meta_reader_read`.  The code in /repo (since
+442364d, which came after the seek repair 8bf8edc) first rejects a read position beyond the loaded data:
+`if (m->offset > m->data_used) return SQFS_ERROR_OUT_OF_BOUNDS;` — modelled for `fix = true` (= the code as it
+is); `fix = false` is the code before both commits.  Under `Inv` the guard is dead (`readStep_of_le`). -/
+def readStep (fix : Bool) (f : File) (unc : Codec) (m : MR) (size : Nat) : StepR :=
+  if fix = true ∧ m.offset > m.dataUsed then .done errOutOfBounds m
+  else readStepBody fix f unc m size
 
 /-- the `while (size != 0)` loop of `sqfs_meta_reader_read`; one unit of fuel per iteration, `acc` = bytes
 delivered so far. -/
